@@ -40,14 +40,33 @@ func (p *tcpPeer) readAll() ([]byte, error) {
 }
 func (p *tcpPeer) close(bool) { _ = p.c.Close() }
 
-type wsPeer struct{ c *websocket.Conn }
+type wsPeer struct {
+	c    *websocket.Conn
+	frag int // > 0: a message is written with several Write calls of this size on one NextWriter
+}
 
 func (p *wsPeer) send(chunk []byte, binary bool) error {
 	t := websocket.BinaryMessage
 	if !binary {
 		t = websocket.TextMessage
 	}
-	return p.c.WriteMessage(t, chunk)
+	if p.frag <= 0 {
+		return p.c.WriteMessage(t, chunk)
+	}
+	w, err := p.c.NextWriter(t)
+	if err != nil {
+		return err
+	}
+	for off := 0; off < len(chunk); off += p.frag {
+		end := off + p.frag
+		if end > len(chunk) {
+			end = len(chunk)
+		}
+		if _, err := w.Write(chunk[off:end]); err != nil {
+			return err
+		}
+	}
+	return w.Close()
 }
 func (p *wsPeer) readAll() ([]byte, error) {
 	_ = p.c.SetReadDeadline(time.Now().Add(hangLimit))
@@ -72,7 +91,10 @@ func (p *wsPeer) close(clean bool) {
 }
 
 // pair returns a transport.Conn accepted by a real server and the raw peer connected to it.
-func pair(kind string) (transport.Conn, rawPeer, func(), error) {
+func pair(kind string) (transport.Conn, rawPeer, func(), error) { return pairFrag(kind, 0) }
+
+// pairFrag: frag > 0 makes the WebSocket peer split every message into frames of about frag bytes.
+func pairFrag(kind string, frag int) (transport.Conn, rawPeer, func(), error) {
 	srv, err := transport.Launch(kind + "://127.0.0.1:0")
 	if err != nil {
 		return nil, nil, nil, err
@@ -97,12 +119,15 @@ func pair(kind string) (transport.Conn, rawPeer, func(), error) {
 		peer = &tcpPeer{c}
 	} else {
 		d := websocket.Dialer{HandshakeTimeout: hangLimit, Subprotocols: []string{"mqtt"}}
+		if frag > 0 {
+			d.WriteBufferSize = frag // a frame is flushed whenever this buffer is full
+		}
 		c, _, err := d.Dial("ws://"+addr+"/", nil)
 		if err != nil {
 			_ = srv.Close()
 			return nil, nil, nil, err
 		}
-		peer = &wsPeer{c}
+		peer = &wsPeer{c: c, frag: frag}
 	}
 	select {
 	case a := <-ch:
@@ -168,10 +193,14 @@ func errKindNet(err error) string {
 
 // receive side: scripted fragments through a real carrier
 func (x *c03) loopbackReceive(kind string, stream []byte, sizes []int, lim int64, textAt int, clean bool, sent []packet.Generic) {
+	x.loopbackReceiveFrag(kind, stream, sizes, lim, textAt, clean, sent, 0)
+}
+
+func (x *c03) loopbackReceiveFrag(kind string, stream []byte, sizes []int, lim int64, textAt int, clean bool, sent []packet.Generic, frag int) {
 	x.n++
 	n := x.n
 	c := x.c
-	conn, peer, stop, err := pair(kind)
+	conn, peer, stop, err := pairFrag(kind, frag)
 	if err != nil {
 		c.Stat("loopback_unavailable", 1)
 		c.Sample("loopback " + kind + " unavailable: " + err.Error())
@@ -195,7 +224,7 @@ func (x *c03) loopbackReceive(kind string, stream []byte, sizes []int, lim int64
 		if len(ms) == 0 {
 			ms = []string{"-"}
 		}
-		c.Emit("case %d ws lim=%d msgs=%s end=%s", n, lim, strings.Join(ms, ","), map[bool]string{true: "close", false: "drop"}[clean])
+		c.Emit("case %d ws lim=%d frag=%d msgs=%s end=%s", n, lim, frag, strings.Join(ms, ","), map[bool]string{true: "close", false: "drop"}[clean])
 	}
 	go func() {
 		for i, ch := range chunks {
@@ -299,6 +328,79 @@ func (x *c03) loopbackSend(kind string, ps []packet.Generic, asyncs []bool, dela
 	c.Stat("loopback_send_"+kind, 1)
 }
 
+// loopbackQuick: the quick-tier share of the real carriers, centred on WebSocket message
+// boundaries: a packet spread over several messages, several packets in one message, 9 KB
+// and 20 KB messages, messages written as many small frames, a text message, both endings.
+func (x *c03) loopbackQuick() {
+	c := x.c
+	r := c.Rng
+	small := func(k int) []packet.Generic {
+		var ps []packet.Generic
+		for ; k > 0; k-- {
+			ps = append(ps, genPacket(r, r.Intn(14), r.Intn(30)))
+		}
+		return ps
+	}
+	type lc struct {
+		kind  string
+		ps    []packet.Generic
+		sizes func(n int) []int
+		frag  int
+		text  bool
+		clean bool
+	}
+	whole := func(n int) []int { return oneChunk(n) }
+	pieces := func(k int) func(int) []int { return func(n int) []int { return randomSizes(r, n, k) } }
+	var coalesced []packet.Generic // about 20 KB of packets in one message
+	for total := 0; total < 20000; {
+		p := x.randPacket(true)
+		coalesced = append(coalesced, p)
+		total += p.Len()
+	}
+	cases := []lc{
+		{"ws", small(1), pieces(1), 0, false, true},                                         // one packet, one byte per message
+		{"ws", small(4), pieces(3), 0, false, true},                                         // packets spanning several messages
+		{"ws", small(6), whole, 0, false, true},                                             // several packets in one message
+		{"ws", small(6), pieces(40), 0, false, false},                                       // peer drops the connection at the end
+		{"ws", []packet.Generic{publishOfLen(r, 9000)}, whole, 0, false, true},              // a 9 KB message
+		{"ws", append(small(2), publishOfLen(r, 9000), &packet.Pingreq{}), whole, 0, false, true},
+		{"ws", coalesced, whole, 0, false, true},                                            // a 20 KB message of many packets
+		{"ws", coalesced, pieces(7000), 0, false, true},
+		{"ws", append(small(3), publishOfLen(r, 5000)), whole, 32, false, true},             // one message as frames of ~32 bytes
+		{"ws", append(small(3), publishOfLen(r, 5000)), pieces(600), 32, false, true},
+		{"ws", coalesced, whole, 125, false, true},
+		{"ws", []packet.Generic{publishOfLen(r, 4095), publishOfLen(r, 4096), publishOfLen(r, 4097)}, whole, 0, false, true},
+		{"ws", []packet.Generic{publishOfLen(r, 4096)}, pieces(4096), 0, false, true},
+		{"ws", small(5), pieces(9), 0, true, true},                                          // a text message somewhere
+		{"tcp", small(6), pieces(3), 0, false, true},
+		{"tcp", coalesced, pieces(7000), 0, false, true},
+		{"tcp", append(small(2), publishOfLen(r, 9000)), whole, 0, false, true},
+	}
+	for i, k := range cases {
+		stream := concatPackets(k.ps)
+		sizes := k.sizes(len(stream))
+		sent := k.ps
+		textAt := -1
+		if k.text && len(sizes) > 0 {
+			textAt = r.Intn(len(sizes))
+			sent = nil
+		}
+		x.loopbackReceiveFrag(k.kind, stream, sizes, 0, textAt, k.clean, sent, k.frag)
+		if i%4 == 0 {
+			// cut inside the last packet: the peer goes away
+			t := len(stream) - 1 - r.Intn(k.ps[len(k.ps)-1].Len()-1)
+			x.loopbackReceiveFrag(k.kind, stream[:t], k.sizes(t), 0, -1, k.clean, nil, k.frag)
+		}
+		var asyncs []bool
+		for range k.ps {
+			asyncs = append(asyncs, r.Intn(3) != 0)
+		}
+		if i%3 == 0 {
+			x.loopbackSend(k.kind, k.ps, asyncs, []time.Duration{0, time.Millisecond}[r.Intn(2)])
+		}
+	}
+}
+
 func (x *c03) loopbackCases() {
 	c := x.c
 	r := c.Rng
@@ -341,10 +443,10 @@ func (x *c03) loopbackCases() {
 }
 
 // C19 over real carriers: concurrent senders on one end, a receiver on the other, Close at the end
-func (x *c03) loopbackC19() {
+func (x *c03) loopbackC19(runs int) {
 	c := x.c
 	r := c.Rng
-	for i := 0; i < 60; i++ {
+	for i := 0; i < runs; i++ {
 		kind := []string{"tcp", "ws"}[i%2]
 		x.n++
 		n := x.n
